@@ -344,6 +344,7 @@ class PestModel:
         self.g = grammar
         self.filters = filters      # list of (context suffix tuple, function expr -> expr, description)
         self.applied = []           # descriptions of filters that found an occurrence
+        self.predicates_dropped = []  # rule paths where a lookahead predicate could not be modelled exactly
         self.skip = self.skip_expr()
 
     def skip_expr(self):
@@ -353,6 +354,39 @@ class PestModel:
         if "WHITESPACE" not in self.g.rules:
             return eps()
         return star(self.conv(self.g.rules["WHITESPACE"]["expr"], True, ("WHITESPACE",), top=False))
+
+    def max_len(self, e, depth=0):
+        """maximum sentence length of a pest expression (characters), None if unbounded/unknown"""
+        k = e["k"]
+        if depth > 30:
+            return None
+        if k in ("str", "insens"):
+            return len(e["v"])
+        if k == "range":
+            return 1
+        if k == "ident":
+            if e["v"] in BUILTINS:
+                return 0 if e["v"] in ("SOI", "EOI") else (2 if e["v"] == "NEWLINE" else 1)
+            if e["v"] in self.g.rules:
+                return self.max_len(self.g.rules[e["v"]]["expr"], depth + 1)
+            return None
+        if k == "seq":
+            a, b = self.max_len(e["a"], depth + 1), self.max_len(e["b"], depth + 1)
+            return None if a is None or b is None else a + b
+        if k == "choice":
+            a, b = self.max_len(e["a"], depth + 1), self.max_len(e["b"], depth + 1)
+            return None if a is None or b is None else max(a, b)
+        if k == "opt":
+            return self.max_len(e["e"], depth + 1)
+        if k == "repn" and e["max"] >= 0:
+            a = self.max_len(e["e"], depth + 1)
+            return None if a is None else a * e["max"]
+        if k in ("pospred", "negpred"):
+            return 0
+        return None
+
+    def min_len_expr(self, e):
+        return self.g._min(e, set())
 
     def rule(self, name, top, ctx=(), atomic=False):
         if name in PEST_KNOTS and not top:
@@ -394,6 +428,15 @@ class PestModel:
             inner_atomic = False if compound else atomic
             return self.rule(e["v"], False, ctx, inner_atomic)
         if k == "seq":
+            a = e["a"]
+            if a["k"] in ("negpred", "pospred") and atomic:
+                # !a ~ b  (atomic: no skip in between) == b ∩ ¬(a Σ*)  when every sentence of b is at least as long as the longest of a
+                mx = self.max_len(a["e"])
+                mn = self.min_len_expr(e["b"])
+                if mx is not None and mn >= mx:
+                    guard = seq(self.conv(a["e"], atomic, ctx, top, compound), anystar())
+                    body = self.conv(e["b"], atomic, ctx, top, compound)
+                    return and_(body, not_(guard) if a["k"] == "negpred" else guard)
             return seq(self.conv(e["a"], atomic, ctx, top, compound), sk, self.conv(e["b"], atomic, ctx, top, compound))
         if k == "choice":
             return alt(self.conv(e["a"], atomic, ctx, top, compound), self.conv(e["b"], atomic, ctx, top, compound))
@@ -431,7 +474,10 @@ class PestModel:
                     parts.append(rest)
             return seq(*parts)
         if k in ("pospred", "negpred"):
-            raise Unsupported("predicate `%s` in rule %s: not modelled" % (k, "/".join(ctx)))
+            # a predicate constrains the *remaining input*; handled exactly in `seq` when it guards a following operand at
+            # least as long as itself (the usual `!a ~ b` idiom); otherwise it is dropped and the model is marked
+            self.predicates_dropped.append("/".join(ctx))
+            return eps()
         raise Unsupported("pest expression kind `%s`" % k)
 
 
@@ -467,6 +513,9 @@ def slot_filter(steps):
         if s.startswith("ctrl<="):
             c = int(s[6:])
             fs.append(not_(seq(anystar(), cset([[0, c]]), anystar())))
+        if s.startswith("reject:"):
+            rs = [[int(a), int(b)] for a, b in (x.split("-") for x in s[7:].split(","))]
+            fs.append(not_(seq(anystar(), cset(rs), anystar())))
         if s == "parse:i64":
             lo, hi = rng if rng else (-(2 ** 63), 2 ** 63 - 1)
             # trims before the parse (Unicode / custom sets): only blanks can occur in the grammar's spans
@@ -692,6 +741,8 @@ def show_witness(cps):
     for c in cps:
         if c in KNOT_SHOW:
             out += KNOT_SHOW[c]
+        elif c < 0x20 or 0x7F <= c <= 0x9F or 0xD800 <= c <= 0xDFFF or c in (0x2028, 0x2029, 0xFEFF):
+            out += "<U+%04X>" % c
         else:
             out += chr(c)
     return out
@@ -917,6 +968,7 @@ def analyse(prog, grammar, tier="quick"):
         "ops": pm.ops,
         "p1": pm.p1, "seg": pm.seg, "p4": pm.p4, "ctrl": pm.ctrl,
         "abnf_selfcheck": {"n": n, "bad": bad},
+        "predicates_dropped": sorted(set(model.predicates_dropped)),
         "defs": len(DEFS),
         "pest_version": pv,
     }
